@@ -17,7 +17,10 @@ use rb_harness::json::J;
 use rb_harness::report::{Failure, Kind, Report};
 use rb_harness::rng::Rng;
 use rb_harness::sx;
-use rusty_basic::interpreter::verif::run_in_memory;
+use rusty_basic::interpreter::verif::{Snapshot, run_in_memory};
+use rusty_variant::Variant;
+use std::cell::RefCell;
+use std::rc::Rc;
 
 type S = Vec<u32>;
 
@@ -62,6 +65,12 @@ enum Op {
     StringStr(i32, S),
     SpaceStr(i32),
     Chr(i32),
+    /// RIGHT$(s, n) + "|" + MID$(s, LEN(s) - n + 1), generated for 0 <= n <= LEN(s) only (theorem right_eq_mid)
+    RightMid(S, i32),
+    /// LTRIM$(RTRIM$(s)) + "|" + RTRIM$(LTRIM$(s)) (theorem ltrim_rtrim_comm)
+    TrimBoth(S),
+    /// UCASE$(LCASE$(s)) (theorem ucase_lcase)
+    UcaseLcase(S),
 }
 
 // ---------------------------------------------------------------------------------------------
@@ -163,12 +172,16 @@ impl Op {
             Op::StringStr(..) => "stringstr",
             Op::SpaceStr(..) => "spacestr",
             Op::Chr(..) => "chr",
+            Op::RightMid(..) => "rightmid",
+            Op::TrimBoth(..) => "trimboth",
+            Op::UcaseLcase(..) => "ucaselcase",
         }
     }
 
     fn strings(&self) -> Vec<&S> {
         match self {
-            Op::Left(s, _) | Op::Right(s, _) | Op::Mid2(s, _) | Op::Mid3(s, _, _) | Op::LeftMid(s, _) => vec![s],
+            Op::Left(s, _) | Op::Right(s, _) | Op::Mid2(s, _) | Op::Mid3(s, _, _) | Op::LeftMid(s, _) | Op::RightMid(s, _) => vec![s],
+            Op::TrimBoth(s) | Op::UcaseLcase(s) => vec![s],
             Op::Instr2(s, t) | Op::Instr3(_, s, t) | Op::LenConcat(s, t) => vec![s, t],
             Op::Len(s) | Op::Ucase(s) | Op::Lcase(s) | Op::Ltrim(s) | Op::Rtrim(s) | Op::StringStr(_, s) => vec![s],
             Op::Space(_) | Op::StringCode(..) | Op::SpaceStr(_) | Op::Chr(_) => vec![],
@@ -232,6 +245,16 @@ impl Op {
                 format!("SPACE$({}) + \"|\" + STRING$({}, 32)", i, i)
             }
             Op::Chr(i) => format!("CHR$({})", iarg(*i, style, "N%", &mut setup)),
+            Op::RightMid(s, n) => {
+                let a = sarg(s, style, "A$", &mut setup);
+                let i = iarg(*n, style, "N%", &mut setup);
+                format!("RIGHT$({}, {}) + \"|\" + MID$({}, LEN({}) - {} + 1)", a, i, a, a, i)
+            }
+            Op::TrimBoth(s) => {
+                let a = sarg(s, style, "A$", &mut setup);
+                format!("LTRIM$(RTRIM$({})) + \"|\" + RTRIM$(LTRIM$({}))", a, a)
+            }
+            Op::UcaseLcase(s) => format!("UCASE$(LCASE$({}))", sarg(s, style, "A$", &mut setup)),
         };
         let stmt = if self.numeric() { format!("PRINT {}", e) } else { format!("PRINT \"[\" + {} + \"]\"", e) };
         (setup, stmt)
@@ -258,6 +281,9 @@ impl Op {
             Op::StringStr(n, s) => format!("(str.stringStr {} {})", n, l(s)),
             Op::SpaceStr(n) => format!("(str.spacestr {})", n),
             Op::Chr(i) => format!("(str.chr {})", i),
+            Op::RightMid(s, n) => format!("(str.rightmid {} {})", l(s), n),
+            Op::TrimBoth(s) => format!("(str.trimboth {})", l(s)),
+            Op::UcaseLcase(s) => format!("(str.ucaselcase {})", l(s)),
         }
     }
 
@@ -371,6 +397,28 @@ impl Op {
                     Out::Err(5)
                 }
             }
+            Op::RightMid(s, n) => {
+                // both sides are the last n characters
+                let suffix = s[s.len() - clamp(*n, s.len())..].to_vec();
+                let mut v = suffix.clone();
+                v.push(124);
+                v.extend(suffix);
+                Out::Str(v)
+            }
+            Op::TrimBoth(s) => {
+                let a = s.iter().take_while(|&&c| c == 32).count();
+                let b = s[a..].iter().rev().take_while(|&&c| c == 32).count();
+                let core = s[a..s.len() - b].to_vec();
+                let mut v = core.clone();
+                v.push(124);
+                v.extend(core);
+                Out::Str(v)
+            }
+            Op::UcaseLcase(s) => Out::Str(
+                s.iter()
+                    .map(|&c| if (97..=122).contains(&c) { c - 32 } else { c })
+                    .collect(),
+            ),
         })
     }
 
@@ -707,11 +755,13 @@ fn main() {
     let rep = Report::new(
         "C17",
         "program-level calls of LEFT$/RIGHT$/MID$/INSTR/LEN/UCASE$/LCASE$/LTRIM$/RTRIM$/SPACE$/STRING$/CHR$ and the \
-         equations LEFT$(s,n)+MID$(s,n+1)=s, LEN(a+b)=LEN(a)+LEN(b), SPACE$(n)=STRING$(n,32): exhaustive over all strings over \
+         equations LEFT$(s,n)+MID$(s,n+1)=s, RIGHT$(s,n)=MID$(s,LEN(s)-n+1) for 0<=n<=LEN(s), LTRIM$(RTRIM$(s))=RTRIM$(LTRIM$(s)), \
+         UCASE$(LCASE$(s))=UCASE$(s), LEN(a+b)=LEN(a)+LEN(b), SPACE$(n)=STRING$(n,32): exhaustive over all strings over \
          {a,b,blank} up to length 3 (quick) / 5 (thorough) x all n,m in -1..7 x three argument styles (literal, variable, \
          nested call); exhaustive LTRIM$/RTRIM$ over {TAB,VT,FF,blank,NEL,NBSP,x} up to length 3; random printable-ASCII and \
-         Latin-1 strings up to length 40 with boundary counts; VAL(STR$(k)) over all 65536 INTEGERs and boundary+sampled \
-         LONGs; VAL on random scanner-alphabet strings (model only). class = (call, style); a case is trivial iff all its \
+         Latin-1 strings up to length 40 with boundary counts; VAL(STR$(k)) over all 65536 INTEGERs, boundary+sampled \
+         LONGs and whole DOUBLE (|k| < 2^53) / SINGLE (|k| <= 2^24) values, with the run-time type and exact value of VAL's \
+         result read from its result slot by the per-instruction observer; VAL on random scanner-alphabet strings (model only). class = (call, style); a case is trivial iff all its \
          string operands are empty.",
     );
     let thorough = rep.is_thorough();
@@ -737,7 +787,18 @@ fn main() {
                     cx.add(Op::Mid3(s.clone(), n, m), st);
                 }
             }
-            for op in [Op::Len(s.clone()), Op::Ucase(s.clone()), Op::Lcase(s.clone()), Op::Ltrim(s.clone()), Op::Rtrim(s.clone())] {
+            for n in 0..=(s.len() as i32) {
+                cx.add(Op::RightMid(s.clone(), n), st);
+            }
+            for op in [
+                Op::Len(s.clone()),
+                Op::Ucase(s.clone()),
+                Op::Lcase(s.clone()),
+                Op::Ltrim(s.clone()),
+                Op::Rtrim(s.clone()),
+                Op::TrimBoth(s.clone()),
+                Op::UcaseLcase(s.clone()),
+            ] {
                 cx.add(op, st);
             }
             for t in &partners {
@@ -852,6 +913,9 @@ fn main() {
             Op::Lcase(s.clone()),
             Op::Ltrim(s.clone()),
             Op::Rtrim(s.clone()),
+            Op::TrimBoth(s.clone()),
+            Op::UcaseLcase(s.clone()),
+            Op::RightMid(s.clone(), n.clamp(0, len)),
             Op::StringStr(pick_n(&mut rng).min(70), s.clone()),
             Op::Space(pick_n(&mut rng).min(70)),
             Op::StringCode(pick_n(&mut rng).min(70), rng.range(32, 255) as i32),
@@ -870,45 +934,13 @@ fn main() {
     // all INTEGERs, one program
     {
         let text = "FOR K& = -32768 TO 32767\nA% = K&\nPRINT STR$(A%); \"|\"; VAL(STR$(A%))\nNEXT\n";
-        let reqs: Vec<String> =
-            (-32768..=32767i64).flat_map(|k| [format!("(str.str {})", k), format!("(str.valstr {})", k)]).collect();
+        let ks: Vec<i64> = (-32768..=32767i64).collect();
+        let reqs: Vec<String> = ks.iter().flat_map(|k| [format!("(str.str {})", k), format!("(str.valstr {})", k)]).collect();
         let answers = ask(&reqs);
         programs += 1;
-        match run_program(text, 50_000_000) {
-            Ran::Done { lines, err } => {
-                if err.is_some() || lines.len() != 65536 {
-                    rep.fail(Failure {
-                        kind: Kind::ImplVsProperty,
-                        signature: "valstr:integer-loop".into(),
-                        input: text.into(),
-                        implementation: format!("{} lines, error {:?}", lines.len(), err),
-                        expected: "65536 lines, no error".into(),
-                        note: "VAL(STR$(k)) over all INTEGERs".into(),
-                    });
-                }
-                for (i, line) in lines.iter().enumerate().take(65536) {
-                    let k = i as i64 - 32768;
-                    check_valstr(&mut rep, k, line, &answers[2 * i], &answers[2 * i + 1], "FOR-loop over all INTEGERs");
-                }
-            }
-            Ran::FrontEnd(e) => rep.fail(Failure {
-                kind: Kind::ImplVsProperty,
-                signature: "valstr:integer-loop".into(),
-                input: text.into(),
-                implementation: e,
-                expected: "runs".into(),
-                note: String::new(),
-            }),
-            Ran::Panic => rep.fail(Failure {
-                kind: Kind::ImplVsProperty,
-                signature: "valstr:integer-loop".into(),
-                input: text.into(),
-                implementation: "panic".into(),
-                expected: "runs".into(),
-                note: String::new(),
-            }),
-        }
-        rep.exhaustive_parts.push("VAL(STR$(k)) and STR$(k) for all 65536 INTEGER values k".into());
+        let (ran, vals) = run_program_val(text, 50_000_000);
+        check_valstr_batch(&mut rep, text, &ks, ran, &vals, &answers, "valstr:integer-loop", "FOR-loop over all INTEGERs");
+        rep.exhaustive_parts.push("VAL(STR$(k)) (value and run-time type of the result) and STR$(k) for all 65536 INTEGER values k".into());
         rep.bump_by("valstr.integer", 65536);
     }
     eprintln!("[c17] integer loop done at {:?}", t0.elapsed());
@@ -925,7 +957,7 @@ fn main() {
                 ks.push(-(10i64.pow(e)) + d);
             }
         }
-        let n_long = if thorough { 200_000 } else { 6_000 };
+        let n_long = if thorough { 200_000 } else { 4_000 };
         for _ in 0..n_long {
             // spread over magnitudes
             let bits = rng.range(1, 31) as u32;
@@ -937,52 +969,70 @@ fn main() {
         for (chunk_no, chunk) in ks.chunks(250).enumerate() {
             let mut text = String::new();
             for (j, &k) in chunk.iter().enumerate() {
-                let use_var = (chunk_no + j) % 2 == 0 || k == -2147483648;
-                if k == -2147483648 {
-                    text.push_str("K& = -2147483647\nK& = K& - 1\n");
-                } else if use_var {
-                    text.push_str(&format!("K& = {}\n", k));
-                }
+                let use_var = (chunk_no + j) % 2 == 0;
                 if use_var {
-                    text.push_str("PRINT STR$(K&); \"|\"; VAL(STR$(K&))\n");
+                    text.push_str(&format!("K& = {}\nPRINT STR$(K&); \"|\"; VAL(STR$(K&))\n", k));
                 } else {
                     text.push_str(&format!("PRINT STR$({}); \"|\"; VAL(STR$({}))\n", k, k));
                 }
+                rep.bump(if (-32768..=32767).contains(&k) { "valstr.long-in-integer-range" } else { "valstr.long" });
             }
             programs += 1;
-            match run_program(&text, 5_000_000) {
-                Ran::Done { lines, err } if err.is_none() && lines.len() == chunk.len() => {
-                    for (j, &k) in chunk.iter().enumerate() {
-                        let i = chunk_no * 250 + j;
-                        check_valstr(&mut rep, k, &lines[j], &answers[2 * i], &answers[2 * i + 1], "LONG literal/variable");
-                        rep.bump(if (-32768..=32767).contains(&k) { "valstr.long-in-integer-range" } else { "valstr.long" });
-                    }
-                }
-                other => {
-                    let what = match other {
-                        Ran::Done { lines, err } => format!("{} lines, error {:?}", lines.len(), err),
-                        Ran::FrontEnd(e) => e,
-                        Ran::Panic => "panic".into(),
-                    };
-                    rep.fail(Failure {
-                        kind: Kind::ImplVsProperty,
-                        signature: "valstr:long-batch".into(),
-                        input: text.clone(),
-                        implementation: what,
-                        expected: format!("{} lines, no error", chunk.len()),
-                        note: "VAL(STR$(k)) over LONGs".into(),
-                    });
-                }
+            let (ran, vals) = run_program_val(&text, 5_000_000);
+            let a = &answers[2 * 250 * chunk_no..2 * (250 * chunk_no + chunk.len())];
+            check_valstr_batch(&mut rep, &text, chunk, ran, &vals, a, "valstr:long-batch", "LONG literal/variable");
+        }
+        rep.sample(J::s("K& = 2147483647 : PRINT STR$(K&); \"|\"; VAL(STR$(K&))  -> ` 2147483647| 2147483647`, Val# = VDouble(2147483647.0)"));
+    }
+    eprintln!("[c17] longs done at {:?}", t0.elapsed());
+    // whole DOUBLE and SINGLE values: STR$ prints the plain digits, VAL reads them back (|k| < 2^53 / <= 2^24)
+    {
+        let lim: i64 = (1i64 << 53) - 1;
+        let mut dbl: Vec<i64> = vec![0, 1, -1, 32768, -32769, 2147483648, -2147483649, 4294967296, lim, -lim, lim - 1, 1 << 52, -(1 << 52)];
+        for e in 10..=15u32 {
+            for d in [-1i64, 0, 1] {
+                dbl.push(10i64.pow(e) + d);
+                dbl.push(-(10i64.pow(e)) + d);
             }
         }
-        rep.sample(J::s("K& = 2147483647 : PRINT STR$(K&); \"|\"; VAL(STR$(K&))  -> ` 2147483647| 2147483647`"));
+        let n_dbl = if thorough { 100_000 } else { 2_000 };
+        for _ in 0..n_dbl {
+            let bits = rng.range(1, 53) as u32;
+            let mag = rng.range(0, (1i64 << bits) - 1);
+            dbl.push(if rng.chance(1, 2) { -mag } else { mag });
+        }
+        let mut sgl: Vec<i64> = vec![0, 1, -1, 16777216, -16777216, 16777215, 8388608, 100000, -99999];
+        let n_sgl = if thorough { 50_000 } else { 1_000 };
+        for _ in 0..n_sgl {
+            let bits = rng.range(1, 24) as u32;
+            let mag = rng.range(0, (1i64 << bits) - 1);
+            sgl.push(if rng.chance(1, 2) { -mag } else { mag });
+        }
+        for (var, ks, sig, how, key) in [
+            ("X#", &dbl, "valstr:double-batch", "whole DOUBLE variable", "valstr.whole-double"),
+            ("Y!", &sgl, "valstr:single-batch", "whole SINGLE variable", "valstr.whole-single"),
+        ] {
+            let reqs: Vec<String> = ks.iter().flat_map(|k| [format!("(str.strdbl {})", k), format!("(str.valstr {})", k)]).collect();
+            let answers = ask(&reqs);
+            for (chunk_no, chunk) in ks.chunks(250).enumerate() {
+                let mut text = String::new();
+                for &k in chunk {
+                    text.push_str(&format!("{} = {}\nPRINT STR$({}); \"|\"; VAL(STR$({}))\n", var, k, var, var));
+                }
+                programs += 1;
+                rep.bump_by(key, chunk.len() as u64);
+                let (ran, vals) = run_program_val(&text, 5_000_000);
+                let a = &answers[2 * 250 * chunk_no..2 * (250 * chunk_no + chunk.len())];
+                check_valstr_batch(&mut rep, &text, chunk, ran, &vals, a, sig, how);
+            }
+        }
     }
+    eprintln!("[c17] whole floats done at {:?}", t0.elapsed());
 
-    eprintln!("[c17] longs done at {:?}", t0.elapsed());
     // ---- 5. VAL on scanner-alphabet strings: model vs implementation -------------------------------------
     {
         let n_val = if thorough { 60_000 } else { 4_000 };
-        let mut inputs: Vec<S> = vec![];
+        let mut inputs: Vec<S> = vec![vec![], vec![45], vec![45, 48], vec![43], vec![46], vec![45, 46], vec![120, 49]];
         for _ in 0..n_val {
             let len = rng.range(0, 12) as usize;
             let s: S = (0..len)
@@ -998,63 +1048,165 @@ fn main() {
                 text.push_str(&format!("PRINT VAL({})\n", lit(s)));
             }
             programs += 1;
-            let ran = run_program(&text, 5_000_000);
-            let lines = match ran {
-                Ran::Done { lines, err } if err.is_none() && lines.len() == chunk.len() => lines,
-                _ => {
-                    rep.fail(Failure {
-                        kind: Kind::ModelVsImpl,
-                        signature: "model:val-batch".into(),
-                        input: text.clone(),
-                        implementation: "batch did not run to the end".into(),
-                        expected: format!("{} lines", chunk.len()),
-                        note: String::new(),
-                    });
-                    continue;
-                }
-            };
+            let (ran, vals) = run_program_val(&text, 5_000_000);
+            let ok = matches!(&ran, Ran::Done { lines, err } if err.is_none() && lines.len() == chunk.len()) && vals.len() == chunk.len();
+            if !ok {
+                rep.fail(Failure {
+                    kind: Kind::ModelVsImpl,
+                    signature: "model:val-batch".into(),
+                    input: text.clone(),
+                    implementation: format!("batch did not run to the end or {} VAL results were observed", vals.len()),
+                    expected: format!("{} lines and VAL results", chunk.len()),
+                    note: String::new(),
+                });
+                continue;
+            }
             for (j, s) in chunk.iter().enumerate() {
                 let ans = &answers[chunk_no * 250 + j];
-                let got = String::from_utf8_lossy(&lines[j]).trim().to_owned();
                 rep.case(Some(format!("val{}", sx::ints(s.iter()))));
-                let want = if let Some(r) = ans.strip_prefix("(integer ") {
-                    rep.bump("val.model-integer");
-                    Some(r.trim_end_matches(')').to_owned())
-                } else if let Some(r) = ans.strip_prefix("(long ") {
-                    rep.bump("val.model-long");
-                    Some(r.trim_end_matches(')').to_owned())
-                } else if ans == "unmodelled" {
-                    rep.bump("val.unmodelled-fraction-skipped");
-                    None
-                } else if ans.starts_with("(double") {
-                    rep.bump("val.model-double-skipped");
-                    None
-                } else {
-                    Some(format!("bad model answer {}", ans))
+                // the run-time type: VAL is a DOUBLE function, whatever the digits
+                let got = &vals[j];
+                let bits = match got {
+                    Variant::VDouble(x) => Some(x.to_bits()),
+                    _ => None,
+                };
+                if bits.is_none() {
+                    rep.fail(Failure {
+                        kind: Kind::ImplVsProperty,
+                        signature: "val:result-type".into(),
+                        input: format!("PRINT VAL({})", lit(s)),
+                        implementation: format!("{:?}", got),
+                        expected: "a VDouble".into(),
+                        note: "VAL is a DOUBLE function: its result slot must hold a DOUBLE".into(),
+                    });
+                }
+                let want = match parse_model_double(ans) {
+                    Some((neg, m)) => {
+                        rep.bump("val.model-double");
+                        let x = m as f64;
+                        Some(if neg { -x } else { x })
+                    }
+                    None if ans == "unmodelled" => {
+                        rep.bump("val.unmodelled-fraction-skipped");
+                        None
+                    }
+                    None => {
+                        rep.fail(Failure {
+                            kind: Kind::ModelVsImpl,
+                            signature: "model:val".into(),
+                            input: reqs[chunk_no * 250 + j].clone(),
+                            implementation: format!("{:?}", got),
+                            expected: format!("bad model answer {}", ans),
+                            note: String::new(),
+                        });
+                        None
+                    }
                 };
                 if let Some(w) = want {
-                    if w != got {
+                    if bits != Some(w.to_bits()) {
                         rep.fail(Failure {
                             kind: Kind::ModelVsImpl,
                             signature: "model:val".into(),
                             input: format!("PRINT VAL({})", lit(s)),
-                            implementation: got,
-                            expected: w,
-                            note: "RbModel.Str.val".into(),
+                            implementation: format!("{:?}", got),
+                            expected: format!("VDouble({:?}) [{}]", w, ans),
+                            note: "RbModel.Str.val (sign and magnitude of the double, negative zero included)".into(),
                         });
                     }
                 }
             }
         }
+        rep.sample(J::s("PRINT VAL(\"-0\") -> Val# = VDouble(-0.0) ; model (double t 0)"));
     }
     eprintln!("[c17] val done at {:?}", t0.elapsed());
     rep.notes.push(format!("{} programs were run through the interpreter", programs));
     rep.finish();
 }
 
-/// One line `STR$(k)|VAL(STR$(k))` against the property (k comes back), the decimal printer and the model.
-fn check_valstr(rep: &mut Report, k: i64, line: &[u8], model_str: &str, model_val: &str, how: &str) {
-    rep.case(if k == 0 { None } else { Some(format!("valstr{}", k)) });
+/// `(double t|f m)` → (negative, magnitude)
+fn parse_model_double(ans: &str) -> Option<(bool, u64)> {
+    let inner = ans.strip_prefix("(double ")?.strip_suffix(')')?;
+    let (s, m) = inner.split_once(' ')?;
+    let neg = match s {
+        "t" => true,
+        "f" => false,
+        _ => return None,
+    };
+    Some((neg, m.parse().ok()?))
+}
+
+/// Runs a program under the per-instruction observer and returns, besides the output, what every VAL call
+/// left in its result slot (the variable `Val#` of the built-in's own context), in call order: one entry each
+/// time the slot comes into existence.  This is the run-time TYPE and exact value of VAL's result, before
+/// any conversion by an assignment and independent of the number printer.
+fn run_program_val(text: &str, budget: u64) -> (Ran, Vec<Variant>) {
+    let seen: Rc<RefCell<(bool, Vec<Variant>)>> = Default::default();
+    let seen2 = seen.clone();
+    let observer = Box::new(move |s: &Snapshot| {
+        if let Some(blocks) = &s.vars {
+            let slot = blocks.iter().flat_map(|b| b.iter()).find(|(n, _)| n.eq_ignore_ascii_case("val#"));
+            let mut g = seen2.borrow_mut();
+            match slot {
+                Some((_, v)) => {
+                    if !g.0 {
+                        g.0 = true;
+                        g.1.push(v.clone());
+                    }
+                }
+                None => g.0 = false,
+            }
+        }
+    });
+    let ran = match std::panic::catch_unwind(std::panic::AssertUnwindSafe(|| run_in_memory(text, b"", budget, Some(observer), true))) {
+        Ok(Ok(r)) => {
+            let err = match &r.result {
+                Ok(()) => None,
+                Err(e) => Some(e.err().get_code()),
+            };
+            if r.budget_exhausted {
+                Ran::FrontEnd("instruction budget exhausted".into())
+            } else {
+                Ran::Done { lines: split_lines(&r.stdout), err }
+            }
+        }
+        Ok(Err(e)) => Ran::FrontEnd(format!("{:?}", e)),
+        Err(_) => Ran::Panic,
+    };
+    let vals = seen.borrow().1.clone();
+    (ran, vals)
+}
+
+/// A batch of `PRINT STR$(k); "|"; VAL(STR$(k))` lines: every line and every observed VAL result is checked.
+/// `answers` holds, per k, the model's STR$ text and the model's VAL(STR$(k)).
+fn check_valstr_batch(rep: &mut Report, text: &str, ks: &[i64], ran: Ran, vals: &[Variant], answers: &[String], sig: &str, how: &str) {
+    match ran {
+        Ran::Done { lines, err } if err.is_none() && lines.len() == ks.len() && vals.len() == ks.len() => {
+            for (j, &k) in ks.iter().enumerate() {
+                check_valstr(rep, k, &lines[j], &vals[j], &answers[2 * j], &answers[2 * j + 1], how);
+            }
+        }
+        other => {
+            let what = match other {
+                Ran::Done { lines, err } => format!("{} lines, {} VAL results observed, error {:?}", lines.len(), vals.len(), err),
+                Ran::FrontEnd(e) => e,
+                Ran::Panic => "panic".into(),
+            };
+            rep.fail(Failure {
+                kind: Kind::ImplVsProperty,
+                signature: sig.to_owned(),
+                input: text.chars().take(600).collect(),
+                implementation: what,
+                expected: format!("{} lines and VAL results, no error", ks.len()),
+                note: format!("VAL(STR$(k)), {}", how),
+            });
+        }
+    }
+}
+
+/// One line `STR$(k)|VAL(STR$(k))` and the observed result slot of that VAL call, against the property
+/// (k comes back, as a DOUBLE), the decimal printer and the model.
+fn check_valstr(rep: &mut Report, k: i64, line: &[u8], got: &Variant, model_str: &str, model_val: &str, how: &str) {
+    rep.case(if k == 0 { None } else { Some(format!("valstr{}/{}", k, how)) });
     let text = String::from_utf8_lossy(line).to_string();
     let (l, r) = match text.split_once('|') {
         Some(x) => x,
@@ -1081,14 +1233,36 @@ fn check_valstr(rep: &mut Report, k: i64, line: &[u8], model_str: &str, model_va
             note: "STR$ prints a blank or a minus sign and the decimal digits".into(),
         });
     }
-    if r.trim().parse::<i64>().ok() != Some(k) {
-        rep.fail(Failure {
+    // the value, exactly, and the run-time type
+    let want = k as f64; // exact: |k| < 2^53
+    match got {
+        Variant::VDouble(x) if x.to_bits() == want.to_bits() => {}
+        Variant::VDouble(x) => rep.fail(Failure {
             kind: Kind::ImplVsProperty,
             signature: "valstr:roundtrip".into(),
             input: format!("VAL(STR$({})) ({})", k, how),
+            implementation: format!("VDouble({:?})", x),
+            expected: format!("VDouble({:?})", want),
+            note: "VAL(STR$(k)) = k".into(),
+        }),
+        other => rep.fail(Failure {
+            kind: Kind::ImplVsProperty,
+            signature: "val:result-type".into(),
+            input: format!("VAL(STR$({})) ({})", k, how),
+            implementation: format!("{:?}", other),
+            expected: format!("VDouble({:?})", want),
+            note: "VAL is a DOUBLE function: its result slot must hold a DOUBLE".into(),
+        }),
+    }
+    // what PRINT shows for it (the number printer belongs to C16; whole doubles print as plain digits)
+    if r.trim().parse::<i64>().ok() != Some(k) {
+        rep.fail(Failure {
+            kind: Kind::ImplVsProperty,
+            signature: "valstr:printed".into(),
+            input: format!("PRINT VAL(STR$({})) ({})", k, how),
             implementation: r.to_owned(),
             expected: k.to_string(),
-            note: "VAL(STR$(k)) = k".into(),
+            note: "VAL(STR$(k)) = k, as printed".into(),
         });
     }
     let codes = sx::ints(l.chars().map(|c| c as u32));
@@ -1096,24 +1270,25 @@ fn check_valstr(rep: &mut Report, k: i64, line: &[u8], model_str: &str, model_va
         rep.fail(Failure {
             kind: Kind::ModelVsImpl,
             signature: "model:strInt".into(),
-            input: format!("STR$({})", k),
+            input: format!("STR$({}) ({})", k, how),
             implementation: codes,
             expected: model_str.to_owned(),
-            note: "RbModel.Str.strInt".into(),
+            note: "RbModel.Str.strInt / strWholeFloat".into(),
         });
     }
-    let want_model = if (-32768..=32767).contains(&k) { format!("(integer {})", k) } else { format!("(long {})", k) };
-    if model_val != want_model || r.trim() != k.to_string() {
-        // the model must say integer/long k, and the implementation printed exactly k
-        if model_val != want_model {
-            rep.fail(Failure {
-                kind: Kind::ModelVsImpl,
-                signature: "model:valstr".into(),
-                input: format!("VAL(STR$({}))", k),
-                implementation: r.trim().to_owned(),
-                expected: model_val.to_owned(),
-                note: "RbModel.Str.val (strInt k)".into(),
-            });
-        }
+    let model_bits = parse_model_double(model_val).map(|(neg, m)| (if neg { -(m as f64) } else { m as f64 }).to_bits());
+    let got_bits = match got {
+        Variant::VDouble(x) => Some(x.to_bits()),
+        _ => None,
+    };
+    if model_bits.is_none() || model_bits != got_bits {
+        rep.fail(Failure {
+            kind: Kind::ModelVsImpl,
+            signature: "model:valstr".into(),
+            input: format!("VAL(STR$({})) ({})", k, how),
+            implementation: format!("{:?}", got),
+            expected: model_val.to_owned(),
+            note: "RbModel.Str.val (strInt k)".into(),
+        });
     }
 }
